@@ -149,3 +149,53 @@ theorem tokens_shared_multiprocess_counterexample : ¬ (multiToks (.seeded 11) d
 example : (engineToks (some 3) 0 [⟨2, 2, fun i => i, true⟩, ⟨0, 3, fun _ => 2, false⟩]).length = 2 * 2 + 1 + 6 := by decide
 
 end Rpylib.Rng
+
+namespace Rpylib.Rng
+
+/-! ### multi-process, jump-time mode (nothing is pre-drawn): every schedule is safe -/
+
+private theorem go_range (src : Src) (p : Pass) (hp : p.predraw = false) (w : Nat) (paths : List Nat) :
+    ∀ (k off : Nat) (t : Tok), t ∈ workerToks.go src p w k off paths → t.src = .ambient (w + 1) ∧ off ≤ t.pos := by
+  induction paths with
+  | nil => intro k off t h; simp [workerToks.go] at h
+  | cons i rest ih =>
+    intro k off t h
+    simp only [workerToks.go, hp, Bool.false_eq_true, if_false, List.nil_append, List.mem_append, List.mem_map,
+      List.mem_range] at h
+    rcases h with ⟨j, _, rfl⟩ | h
+    · exact ⟨rfl, by simp⟩
+    · have := ih (k + 1) (off + p.fly i) t h
+      exact ⟨this.1, by omega⟩
+
+private theorem go_nodup (src : Src) (p : Pass) (hp : p.predraw = false) (w : Nat) (paths : List Nat) :
+    ∀ (k off : Nat), (workerToks.go src p w k off paths).Nodup := by
+  induction paths with
+  | nil => intro k off; simp [workerToks.go]
+  | cons i rest ih =>
+    intro k off
+    simp only [workerToks.go, hp, Bool.false_eq_true, if_false, List.nil_append]
+    apply List.Nodup.append
+    · apply List.Nodup.map_on _ List.nodup_range
+      intro a _ b _ hab; injection hab with _ h; omega
+    · exact ih _ _
+    · intro t h1 h2
+      obtain ⟨j, hj, rfl⟩ := List.mem_map.mp h1
+      have hj' := List.mem_range.mp hj
+      have := (go_range src p hp w rest (k + 1) (off + p.fly i) _ h2).2
+      simp at this; omega
+
+/-- **whatever the schedule** (any assignment of path indices to workers, any chunking, any number of workers): in
+    jump-time mode, where every variate is drawn on the fly by the worker that simulates the path, no two samples share
+    a variate — given that distinct workers are in distinct generator states (assumption on the per-worker seeding). -/
+theorem tokens_disjoint_multiprocess_partial (src : Src) (p : Pass) (hp : p.predraw = false) (sched : List (List Nat)) :
+    (multiToks src p sched).Nodup := by
+  unfold multiToks
+  rw [List.nodup_flatMap]
+  refine ⟨fun w _ => go_nodup src p hp w _ 0 0, ?_⟩
+  apply List.Nodup.pairwise_of_forall_ne List.nodup_range
+  intro w _ w' _ hne t h1 h2
+  have a := (go_range src p hp w _ 0 0 t h1).1
+  have b := (go_range src p hp w' _ 0 0 t h2).1
+  rw [a] at b; injection b with b; omega
+
+end Rpylib.Rng
